@@ -164,6 +164,79 @@ def c05_pfba_factor_thorough(E):
                    pfba=(1, Fraction(11, 10)))
 
 
+def elementary_cycles(m):
+    """signed elementary internal cycles of the concrete stoichiometry: minimal-support null vectors of the
+    internal (non-boundary) columns, both orientations"""
+    import itertools
+    from fractions import Fraction as F
+    import sympy
+    internal = [r for r in m.reactions if not r.boundary]
+    mets = list(m.metabolites)
+    cycles = []
+    for k in range(2, len(internal) + 1):
+        for sub in itertools.combinations(internal, k):
+            if any(set(c) <= set(r.id for r in sub) for c in cycles):
+                continue
+            M = sympy.Matrix([[sympy.Rational(str(F(r._metabolites.get(mt, 0)))) for r in sub] for mt in mets])
+            ns = M.nullspace()
+            if len(ns) == 1 and all(x != 0 for x in ns[0]):
+                cycles.append({r.id: (1 if ns[0][i] > 0 else -1) for i, r in enumerate(sub)})
+    out = []
+    for c in cycles:
+        out.append(c)
+        out.append({r: -s_ for r, s_ in c.items()})
+    return out
+
+
+def cycle_free(cycles, v):
+    cs = []
+    for c in cycles:
+        cs.append(z3.Or(*[(v[r] <= 0) if s_ > 0 else (v[r] >= 0) for r, s_ in c.items()]))
+    return z3.And(*cs) if cs else z3.BoolVal(True)
+
+
+def c05_loopless(E, templates=(("T3", ("R2",)), ("T3", ("R1",)))):
+    env.for_path(E)
+    tid, which = E.pick("template", templates)
+    m = networks.build(tid)
+    obj = networks.T[tid]["objectives"][0]
+    networks.symbolic_bounds(E, m, which=list(which), delta=0.01)
+    m.objective = {m.reactions.get_by_id(r): c for r, c in obj.items()}
+    E.note(template=tid, symbolic=list(which))
+    status, opt, setp = oracle_set(E, m, obj, "max", 1)
+    if status != "optimal":
+        return
+    lp, P = setp
+    cycles = elementary_cycles(m)
+    # the property's domain: models in which a cycle-free optimal distribution exists (forced loops are documented as kept)
+    w0 = lp.fresh_point(E, "cf0")
+    if not E.exists_fork(list(w0.values()), z3.And(P(w0), cycle_free(cycles, w0)), name="cycle_free_point_exists"):
+        return
+    ids = [r.id for r in m.reactions if not r.boundary][:2]
+    before = observe(m)
+    try:
+        plain = flux_variability_analysis(m, reaction_list=ids, processes=1)
+        ll = flux_variability_analysis(m, reaction_list=ids, loopless=True, processes=1)
+    except (OptimizationError, ValueError) as e:
+        E.prove(False, "loopless-fva-runs-on-feasible-model", exc=type(e).__name__, msg=str(e)[:160])
+        return
+    same(E, before, observe(m), "model-unchanged", what="loopless fva")
+    v = lp.fresh_point(E, "anycf")
+    Pv = z3.And(P(v), cycle_free(cycles, v))
+    # loopless_fva_iter compares fluxes with zero_cutoff (model.tolerance = 1e-7): its results are exact only up to that
+    # cutoff, so these obligations carry a slack of 1e-6 also in the exact symbolic run (cutoff-aware, DESIGN 4.0)
+    sl = rv(1e-6)
+    for rid in ids:
+        a, b = lift(ll.at[rid, "minimum"]), lift(ll.at[rid, "maximum"])
+        pa, pb = lift(plain.at[rid, "minimum"]), lift(plain.at[rid, "maximum"])
+        E.prove(z3.And(pa - sl <= a, a <= b + sl, b <= pb + sl), "loopless-range-inside-plain-range", reaction=rid)
+        E.prove(z3.Implies(Pv, z3.And(a - sl <= v[rid], v[rid] <= b + sl)), "loopless-range-sound", reaction=rid)
+        for what, val in (("minimum", a), ("maximum", b)):
+            w = lp.fresh_point(E, "att_%s_%s" % (what, rid))
+            E.prove_exists(list(w.values()), z3.And(P(w), cycle_free(cycles, w), w[rid] - val <= sl, val - w[rid] <= sl),
+                           "loopless-range-tight", reaction=rid, what=what)
+
+
 HARNESSES = [
     H("c05_fva", c05_fva, tiers=("quick",), quick=dict(max_paths=8000, time_budget=80),
       bounds="T1,T2 all flux bounds symbolic, T3 first 3 reactions symbolic (others at template values); bounds in "
@@ -173,6 +246,10 @@ HARNESSES = [
       bounds="T1,T2,T3,T7 all bounds symbolic, T4 first 4; fractions {1,9/10,1/2,0}"),
     H("c05_pfba_factor", c05_pfba_factor, tiers=("quick",), quick=dict(max_paths=3000, time_budget=45),
       bounds="T2,T3; first 3 reactions symbolic; pfba_factor in {1, 11/10}; fraction in {1,1/2}"),
+    H("c05_loopless", c05_loopless, quick=dict(max_paths=3000, time_budget=70), thorough=dict(max_paths=100000, time_budget=500),
+      bounds="T3 (2-cycles R1/R2, R3/R2, R1/-R3), one symbolic reaction (R2 or R1; 0 or |b|>=1e-2); loopless=True for 2 internal "
+             "reactions; oracle = optimal steady-state distributions in which no elementary internal cycle runs in its orientation; "
+             "instances without a cycle-free optimal distribution (forced loops, documented as kept) excluded"),
     H("c05_pfba_factor_thorough", c05_pfba_factor_thorough, tiers=("thorough",),
       thorough=dict(max_paths=100000, time_budget=400),
       bounds="T2,T7 all symbolic, T3 first 4; pfba_factor in {1, 11/10}; fraction in {1,1/2,0}"),
